@@ -67,7 +67,7 @@ def run(tier, seed):
             pack.violation(name, {'bounded': True, 'inputs': bad, 'native_cmd': 'contracts/bounded_itm_matrix.py'})
     # the time constants the rule is evaluated with follow parameter changes made between segments of a run (Model.set -> dae.Tf, Teye)
     from contracts import fn_pu
-    run_contracts(pack, [(fn_pu.model_set('C04', 'v'), None, fn_pu.replay_model_set), (Q.store_tf('C04'), None, Q.replay_store_tf)])
+    run_contracts(pack, [(fn_pu.model_set('C04', 'v'), None, fn_pu.replay_model_set), (Q.store_tf('C04'), None, Q.replay_store_tf), (Q.system_init('C04'), None, Q.replay_store_tf)])
     name = 'C04/andes/routines/tds.py:TDS.run/bounded:steps-after-a-time-constant-change-satisfy-the-rule-with-the-new-value'
     r = native_guard(pack, name, BT.run_altered)
     if r is not None:
